@@ -1,7 +1,7 @@
 //! impl subset() for HVAR
 
 use crate::{
-    offset::SerializeSubset,
+    offset::{SerializeSerialize, SerializeSubset},
     serialize::{SerializeErrorFlags, Serializer},
     variations::DeltaSetIndexMapSerializePlan,
     IncBiMap, Plan, Subset, SubsetError, SubsetFlags,
@@ -84,7 +84,7 @@ impl ListupIndexMaps for Hvar<'_> {
 
 pub(crate) fn serialize_index_maps(
     s: &mut Serializer,
-    plan: &Plan,
+    _plan: &Plan,
     index_maps: &[Option<DeltaSetIndexMap>],
     index_map_plans: &[IndexMapSubsetPlan],
 ) -> Result<(), SerializeErrorFlags> {
@@ -92,16 +92,15 @@ pub(crate) fn serialize_index_maps(
         return Err(SerializeErrorFlags::SERIALIZE_ERROR_OTHER);
     }
 
-    for (index_map, index_map_subset_plan) in index_maps.iter().zip(index_map_plans) {
+    for index_map_subset_plan in index_map_plans {
         let offset_pos = s.embed(0_u32)?;
         if index_map_subset_plan.is_identity() {
             continue;
         }
 
-        Offset32::serialize_subset(
-            index_map.as_ref().unwrap(),
+        // the source map is not needed (and is absent when the advance mapping is implicit)
+        Offset32::serialize_serialize::<DeltaSetIndexMap>(
             s,
-            plan,
             &index_map_subset_plan.to_serialize_plan(),
             offset_pos,
         )?;
@@ -642,5 +641,66 @@ mod test {
             0x00, 0x00, 0x40, 0x00, 0x40, 0x00, 0x00, 0x00, 0x00, 0x00, 0x00, 0x00,
         ];
         assert_eq!(subsetted_data, expected_data);
+    }
+
+    // HVAR without an advance width mapping (glyph id = delta-set inner index of subtable 0):
+    // the subset gets an explicit mapping and every kept glyph keeps its delta
+    #[test]
+    fn test_subset_hvar_implicit_advance_mapping() {
+        use write_fonts::types::F2Dot14;
+        let raw_bytes: [u8; 80] = [
+            0x00, 0x01, 0x00, 0x00, 0x00, 0x00, 0x00, 0x14, 0x00, 0x00, 0x00, 0x00, 0x00, 0x00,
+            0x00, 0x00, 0x00, 0x00, 0x00, 0x00, 0x00, 0x01, 0x00, 0x00, 0x00, 0x24, 0x00, 0x01,
+            0x00, 0x00, 0x00, 0x0c, 0x00, 0x04, 0x00, 0x00, 0x00, 0x02, 0x00, 0x00, 0x00, 0x01,
+            0xfd, 0x20, 0x02, 0x25, 0x05, 0x30, 0x07, 0x40, 0x00, 0x00, 0x00, 0x00, 0x00, 0x00,
+            0x00, 0x01, 0x00, 0x02, 0xc0, 0x00, 0xc0, 0x00, 0x00, 0x00, 0x00, 0x00, 0x40, 0x00,
+            0x40, 0x00, 0x00, 0x00, 0x00, 0x00, 0x00, 0x00, 0x00, 0x00,
+        ];
+
+        let hvar = Hvar::read(FontData::new(&raw_bytes)).unwrap();
+        assert!(hvar.advance_width_mapping().is_none());
+
+        for retain_gids in [false, true] {
+            let mut builder = FontBuilder::new();
+            //dummy font
+            let font = FontRef::new(&raw_bytes).unwrap();
+
+            let mut plan = Plan::default();
+            let kept: [(u32, u32); 3] = if retain_gids {
+                [(0, 0), (1, 1), (3, 3)]
+            } else {
+                [(0, 0), (1, 1), (2, 3)]
+            };
+            for (new_gid, old_gid) in kept {
+                plan.new_to_old_gid_list
+                    .push((GlyphId::from(new_gid), GlyphId::from(old_gid)));
+                plan.glyphset.insert(GlyphId::from(old_gid));
+            }
+            if retain_gids {
+                plan.subset_flags |= SubsetFlags::SUBSET_FLAGS_RETAIN_GIDS;
+            }
+
+            let mut s = Serializer::new(1024);
+            assert_eq!(s.start_serialize(), Ok(()));
+            let ret = hvar.subset(&plan, &font, &mut s, &mut builder);
+            assert!(ret.is_ok());
+            assert!(!s.in_error());
+            s.end_serialize();
+
+            let subsetted_data = s.copy_bytes();
+            let subset_hvar = Hvar::read(FontData::new(&subsetted_data)).unwrap();
+            for coord in [-1.0, -0.5, 0.25, 1.0] {
+                let coords = [F2Dot14::from_f32(coord)];
+                for (new_gid, old_gid) in kept {
+                    assert_eq!(
+                        subset_hvar
+                            .advance_width_delta(GlyphId::from(new_gid), &coords)
+                            .unwrap(),
+                        hvar.advance_width_delta(GlyphId::from(old_gid), &coords)
+                            .unwrap()
+                    );
+                }
+            }
+        }
     }
 }
